@@ -361,6 +361,14 @@ def c_intersects_bounds(rng):
         if len(fc) >= 2:
             k = rng.randrange(len(fc) // 2)
             bx = (fc[2 * k], fc[2 * k + 1], bx[2] if bx[2] != fc[2 * k] else bx[2] + 1, bx[3] if bx[3] != fc[2 * k + 1] else bx[3] + 1)
+    elif kind in ('polygon', 'multipolygon') and rng.random() < 0.4 and len(cs.view):
+        # a small box around the centre of some ring's bounding box: strictly inside the solid part or inside a hole
+        rings = [r for el in cs.view if el is not None for r in oracle.parts(kind, el) if len(r) >= 6]
+        if rings:
+            r = rng.choice(rings)
+            cxr, cyr = (min(r[0::2]) + max(r[0::2])) / 2, (min(r[1::2]) + max(r[1::2])) / 2
+            dx, dy = rng.choice([0.25, 0.5, 0.75]), rng.choice([0.25, 0.5])
+            bx = (cxr - dx, cyr - dy, cxr + dx, cyr + dy)
     elif rng.random() < 0.35 and len(cs.view):
         # a box whose corners lie strictly between coordinates (halves next to a vertex): the box is a float box
         # whatever the coordinate subtype of the array
